@@ -5,6 +5,7 @@ import re
 from mc.core import UnitResult
 
 ID = "C08"
+PARTS = ['any', 'plain', 'union']      # outcome classes every run must produce (guards against a part of the exploration silently not running)
 RULE = ("state = (overload set, argument type tuple): overload sets of 2 (quick) / 3 (thorough) signatures with 1-2 parameters over {int, str, None, float, Literal[1], object, Any} "
         "incl. overlapping, shadowed and mixed-arity members, distinct return classes; argument types: the vocabulary, all two-member unions, Any, with at most one "
         "union/Any argument per call; real: reveal_type(f(args)) and diagnostics from the real visitor; oracle: the three clauses of the property evaluated with subset-over-universe "
